@@ -14,6 +14,10 @@ def has(case, extra):
 
 
 PREDICATES = {
+    # a gene crossing the origin (start + length beyond the 36 bases of the gap-search ring) inside an origin-spanning search area
+    "C15-F1": lambda case, clause: case.get("kind") == "gap" and case.get("area") == "cross"
+    and any(g[0] + g[1] > 36 and g[1] > 2 * case.get("overlap", 0) for g in case.get("genes", ()))
+    and clause in ("search-window-inside-gene", "gap-orf-inside-gene"),
     # a multi-exon gene whose exons lie in different parts of an origin-spanning region (the intron spans what the region leaves out)
     "C19-F1": lambda case, clause: clause == "exons-apart-gene-outside-range",
     # a hidden entry (index 8 of the directory menu) as the only foreign content of the output directory
